@@ -323,7 +323,17 @@ fn ask_model(drv: &mut Driver, p: &Program, keep: &dyn Fn(usize) -> bool) -> Mod
 
 // ------------------------------------------------------------------ to the compiler
 
-fn render_block(b: &Block, names: &[String], keep: &dyn Fn(usize) -> bool, tags: &BTreeMap<usize, i64>, out: &mut String) {
+fn count_blocks(b: &Block) -> usize {
+    b.stmts.iter().map(|s| if let Stmt::Block(_, inner) = s { 1 + count_blocks(inner) } else { 0 }).sum()
+}
+
+/// number of nested blocks in the modules before `mi` (the model numbers
+/// blocks in the order `TypeChecker::tree` meets them)
+fn block_base(p: &Program, mi: usize) -> usize {
+    p.mods[..mi].iter().map(|m| m.items.iter().map(|it| if let ItemD::Fn { body: Some(b), .. } = it { count_blocks(b) } else { 0 }).sum::<usize>()).sum()
+}
+
+fn render_block(b: &Block, names: &[String], keep: &dyn Fn(usize) -> bool, tags: &BTreeMap<usize, i64>, next_block: &mut usize, out: &mut String) {
     for i in &b.imports {
         out.push_str(&format!("import {};\n", i.render(names)));
     }
@@ -336,7 +346,12 @@ fn render_block(b: &Block, names: &[String], keep: &dyn Fn(usize) -> bool, tags:
                     1 => out.push_str("if sel != -5 {\n"),
                     _ => out.push_str("if sel == -5 { } else {\n"),
                 }
-                render_block(inner, names, keep, tags, out);
+                // a marker local identifies this block's scope in the hook dump
+                let id = *next_block;
+                *next_block += 1;
+                render_imports_first(inner, names, out);
+                out.push_str(&format!("let zz{id} = 0;\n"));
+                render_block_body(inner, names, keep, tags, next_block, out);
                 out.push_str(if style % 3 == 0 { "};\n" } else { "}\n" });
             }
             Stmt::Probe { id, kind, path, .. } => {
@@ -345,6 +360,8 @@ fn render_block(b: &Block, names: &[String], keep: &dyn Fn(usize) -> bool, tags:
                 }
                 let p = path_str(path, names);
                 match kind {
+                    PKind::Fn if id % 2 == 1 => out.push_str(&format!("if sel == {id} {{ return {p}(); }}\n")),
+                    PKind::Const if id % 2 == 1 => out.push_str(&format!("if sel == {id} {{ return {p}; }}\n")),
                     PKind::Fn => out.push_str(&format!("if sel == {id} {{ let r = {p}(); return r; }}\n")),
                     PKind::Const => out.push_str(&format!("if sel == {id} {{ let r = {p}; return r; }}\n")),
                     PKind::Ty => {
@@ -359,14 +376,29 @@ fn render_block(b: &Block, names: &[String], keep: &dyn Fn(usize) -> bool, tags:
     }
 }
 
-fn render_module(m: &ModD, names: &[String], keep: &dyn Fn(usize) -> bool, tags: &BTreeMap<usize, i64>) -> String {
+fn render_imports_first(b: &Block, names: &[String], out: &mut String) {
+    for i in &b.imports {
+        out.push_str(&format!("import {};\n", i.render(names)));
+    }
+}
+
+/// the statements of a block whose imports have been written already
+fn render_block_body(b: &Block, names: &[String], keep: &dyn Fn(usize) -> bool, tags: &BTreeMap<usize, i64>, next_block: &mut usize, out: &mut String) {
+    let body = Block { imports: vec![], stmts: b.stmts.clone() };
+    render_block(&body, names, keep, tags, next_block, out);
+}
+
+fn render_module(p: &Program, mi: usize, keep: &dyn Fn(usize) -> bool, tags: &BTreeMap<usize, i64>) -> String {
+    let m = &p.mods[mi];
+    let names = &p.names;
+    let mut next_block = block_base(p, mi);
     let mut out = String::new();
     for it in &m.items {
         match it {
             ItemD::Fn { name, tag, body: None } => out.push_str(&format!("fn {}() -> i64 {{ {} }}\n", names[*name], tag)),
             ItemD::Fn { name, tag, body: Some(b) } => {
                 out.push_str(&format!("fn {}(sel: i64) -> i64 {{\n", names[*name]));
-                render_block(b, names, keep, tags, &mut out);
+                render_block(b, names, keep, tags, &mut next_block, &mut out);
                 out.push_str(&format!("{tag}\n}}\n"));
             }
             ItemD::Const { name, tag } => out.push_str(&format!("const {}: i64 = {};\n", names[*name], tag)),
@@ -397,7 +429,7 @@ fn file_spec(p: &Program, i: usize, keep: &dyn Fn(usize) -> bool, tags: &BTreeMa
         // unique per file (diagnostics key their source cache by this name)
         name: format!("m{i}/{}.roto", p.names[m.ident]),
         module_name: p.names[m.ident].clone(),
-        contents: render_module(m, &p.names, keep, tags),
+        contents: render_module(p, i, keep, tags),
         location_offset: 0,
         children: Vec::new(),
     };
@@ -559,14 +591,14 @@ fn write_tree(p: &Program, i: usize, dir: &FsPath, keep: &dyn Fn(usize) -> bool,
     // module i owns directory `dir`; its own file is pkg.roto (root) or mod.roto
     std::fs::create_dir_all(dir).expect("mkdir");
     let own = if i == 0 { "pkg.roto" } else { "mod.roto" };
-    std::fs::write(dir.join(own), render_module(&p.mods[i], &p.names, keep, tags)).expect("write");
+    std::fs::write(dir.join(own), render_module(p, i, keep, tags)).expect("write");
     for c in children_of(p, i) {
         let name = &p.names[p.mods[c].ident];
         let as_dir = !children_of(p, c).is_empty() || (noise >> (c % 13)) & 1 == 1;
         if as_dir {
             write_tree(p, c, &dir.join(name), keep, tags, noise);
         } else {
-            std::fs::write(dir.join(format!("{name}.roto")), render_module(&p.mods[c], &p.names, keep, tags)).expect("write");
+            std::fs::write(dir.join(format!("{name}.roto")), render_module(p, c, keep, tags)).expect("write");
         }
     }
     if noise & (1 << 20) != 0 {
@@ -1352,55 +1384,281 @@ struct ProbeInfo {
     form: &'static str,
     depth: usize,
     path: Path,
+    /// canonical name of the scope the reference is written in
+    scope: String,
+    /// position in program order (locals declared later are not visible)
+    seq: usize,
 }
 
-fn probe_infos(p: &Program) -> BTreeMap<usize, ProbeInfo> {
-    let mut out = BTreeMap::new();
-    fn walk(b: &Block, ctx: &str, depth: usize, out: &mut BTreeMap<usize, ProbeInfo>) {
-        for s in &b.stmts {
-            match s {
-                Stmt::Probe { id, kind, path, form } => {
-                    out.insert(*id, ProbeInfo { ctx: ctx.to_string(), kind: *kind, form, depth, path: path.clone() });
-                }
-                Stmt::Block(_, inner) => walk(inner, ctx, depth + 1, out),
-                _ => {}
-            }
-        }
-    }
-    // module paths
+/// module paths from `pkg` (including `pkg`), joined with dots
+fn module_names(p: &Program) -> Vec<String> {
     let mut mp: Vec<Vec<String>> = vec![];
     for m in &p.mods {
         let mut path = match m.parent {
             Some(pi) if pi < mp.len() => mp[pi].clone(),
             _ => vec![],
         };
-        if m.parent.is_some() {
-            path.push(p.names[m.ident].clone());
-        }
+        path.push(p.names[m.ident].clone());
         mp.push(path);
     }
-    for (mi, m) in p.mods.iter().enumerate() {
-        for it in &m.items {
-            match it {
-                ItemD::Fn { name, body: Some(b), .. } => {
-                    let mut d = mp[mi].clone();
-                    d.push(p.names[*name].clone());
-                    walk(b, &d.join("."), 0, &mut out);
+    mp.iter().map(|x| x.join(".")).collect()
+}
+
+/// Where every reference sits, and the tag of every declaration, keyed by the
+/// canonical scope name (`pkg.aa`, `pkg.aa.cx1x0`, `pkg.aa.cx1x0.$b3.$b4`).
+struct Sites {
+    probes: BTreeMap<usize, ProbeInfo>,
+    /// (canonical scope, identifier) → tag of the declaration
+    decls: BTreeMap<(String, String), i64>,
+    /// (canonical scope, identifier) of a local → its position in program order
+    let_seq: BTreeMap<(String, String), usize>,
+}
+
+fn probe_infos(p: &Program) -> Sites {
+    let mut out = BTreeMap::new();
+    let mut decls: BTreeMap<(String, String), i64> = BTreeMap::new();
+    let mut let_seq: BTreeMap<(String, String), usize> = BTreeMap::new();
+    let mut seq = 0usize;
+    #[allow(clippy::too_many_arguments)]
+    fn walk(p: &Program, b: &Block, ctx: &str, scope: &str, depth: usize, next_block: &mut usize, seq: &mut usize, out: &mut BTreeMap<usize, ProbeInfo>, decls: &mut BTreeMap<(String, String), i64>, let_seq: &mut BTreeMap<(String, String), usize>) {
+        for s in &b.stmts {
+            *seq += 1;
+            match s {
+                Stmt::Probe { id, kind, path, form } => {
+                    out.insert(*id, ProbeInfo { ctx: ctx.to_string(), kind: *kind, form, depth, path: path.clone(), scope: scope.to_string(), seq: *seq });
                 }
-                ItemD::SigProbe { id, path, form } => {
-                    out.insert(*id, ProbeInfo { ctx: String::new(), kind: PKind::Ty, form, depth: 99, path: path.clone() });
+                Stmt::Block(_, inner) => {
+                    let id = *next_block;
+                    *next_block += 1;
+                    walk(p, inner, ctx, &format!("{scope}.$b{id}"), depth + 1, next_block, seq, out, decls, let_seq);
                 }
-                _ => {}
+                Stmt::Let(x, t) => {
+                    decls.entry((scope.to_string(), p.names[*x].clone())).or_insert(*t);
+                    let_seq.entry((scope.to_string(), p.names[*x].clone())).or_insert(*seq);
+                }
             }
         }
     }
+    let mn = module_names(p);
+    for (mi, m) in p.mods.iter().enumerate() {
+        let mut next_block = block_base(p, mi);
+        for it in &m.items {
+            match it {
+                ItemD::Fn { name, tag, body } => {
+                    decls.entry((mn[mi].clone(), p.names[*name].clone())).or_insert(*tag);
+                    if let Some(b) = body {
+                        let fscope = format!("{}.{}", mn[mi], p.names[*name]);
+                        let below = fscope.strip_prefix("pkg.").unwrap_or(&fscope).to_string();
+                        walk(p, b, &below, &fscope, 0, &mut next_block, &mut seq, &mut out, &mut decls, &mut let_seq);
+                    }
+                }
+                ItemD::Const { name, tag } | ItemD::Ty { name, tag } => {
+                    decls.entry((mn[mi].clone(), p.names[*name].clone())).or_insert(*tag);
+                }
+                ItemD::SigProbe { id, path, form } => {
+                    out.insert(*id, ProbeInfo { ctx: String::new(), kind: PKind::Ty, form, depth: 99, path: path.clone(), scope: mn[mi].clone(), seq: 0 });
+                }
+                ItemD::Imports(_) => {}
+            }
+        }
+    }
+    for r in &p.rt {
+        for (n, t) in &r.fns {
+            decls.entry((p.names[r.name].clone(), p.names[*n].clone())).or_insert(*t);
+        }
+    }
+    Sites { probes: out, decls, let_seq }
+}
+
+// ------------------------------------------------------------------ the compiler's own scope graph
+
+#[derive(Clone, Debug)]
+struct DScope {
+    parent: Option<usize>,
+    printed: String,
+    /// alias → (scope index, identifier)
+    imports: Vec<(String, usize, String)>,
+    /// identifier, kind, owned scope
+    decls: Vec<(String, String, Option<usize>)>,
+    /// canonical name; `None` for scopes the harness itself introduced
+    canon: Option<String>,
+}
+
+fn parse_dump(lines: &[String]) -> Vec<DScope> {
+    let mut out: Vec<DScope> = vec![];
+    for l in lines {
+        let parts: Vec<&str> = l.split('|').collect();
+        if parts.len() != 5 {
+            continue;
+        }
+        let imports = parts[3].split(',').filter(|x| !x.is_empty()).filter_map(|x| {
+            let (alias, t) = x.split_once('>')?;
+            let (si, id) = t.split_once('.')?;
+            Some((alias.to_string(), si.parse().ok()?, id.to_string()))
+        }).collect();
+        let decls = parts[4].split(',').filter(|x| !x.is_empty()).filter_map(|x| {
+            let (id, k) = x.split_once(':')?;
+            let (kind, owned) = match k.split_once('@') {
+                Some((k, o)) => (k, o.parse().ok()),
+                None => (k, None),
+            };
+            Some((id.to_string(), kind.to_string(), owned))
+        }).collect();
+        out.push(DScope { parent: parts[1].parse().ok(), printed: parts[2].to_string(), imports, decls, canon: None });
+    }
+    // canonical names: named scopes keep their printed name, blocks are named by their marker
+    for i in 0..out.len() {
+        let last = out[i].printed.rsplit('.').next().unwrap_or("").to_string();
+        let canon = if !last.starts_with('$') {
+            Some(out[i].printed.clone())
+        } else {
+            let marker = out[i].decls.iter().find_map(|(id, _, _)| id.strip_prefix("zz").and_then(|k| k.parse::<usize>().ok()));
+            match (marker, out[i].parent.and_then(|pi| out.get(pi)).and_then(|ps| ps.canon.clone())) {
+                (Some(k), Some(pc)) => Some(format!("{pc}.$b{k}")),
+                _ => None,
+            }
+        };
+        out[i].canon = canon;
+    }
     out
+}
+
+/// the dump in the shape the model's dump is compared in (script scopes only)
+fn canon_graph(sc: &[DScope], names: &[String]) -> std::collections::BTreeSet<String> {
+    let mut out = std::collections::BTreeSet::new();
+    for s in sc {
+        let Some(name) = &s.canon else { continue };
+        if !(name == "pkg" || name.starts_with("pkg.")) {
+            continue;
+        }
+        let parent = match s.parent {
+            Some(pi) => match sc.get(pi).and_then(|ps| ps.canon.clone()) {
+                Some(c) => c,
+                None => continue,
+            },
+            None => "-".to_string(),
+        };
+        let mut imps: Vec<String> = s.imports.iter().map(|(a, ti, id)| {
+            format!("{a}>{}.{id}", sc.get(*ti).and_then(|t| t.canon.clone()).unwrap_or_else(|| format!("?{ti}")))
+        }).collect();
+        imps.sort();
+        let mut decls: Vec<String> = s.decls.iter().filter(|(id, _, _)| names.iter().any(|n| n == id)).map(|(id, k, _)| format!("{id}:{k}")).collect();
+        decls.sort();
+        if name.rsplit('.').next().is_some_and(|l| l.starts_with("sp")) && imps.is_empty() && decls.is_empty() {
+            continue;
+        }
+        out.insert(format!("{name}|{parent}|{}|{}", imps.join(","), decls.join(",")));
+    }
+    out
+}
+
+/// the model's dump line in the same shape
+fn canon_model_line(s: &str, names: &[String]) -> Option<String> {
+    let parts: Vec<&str> = s.split('|').collect();
+    if parts.len() != 4 {
+        return Some(s.to_string());
+    }
+    let name = parts[0];
+    if !(name == "pkg" || name.starts_with("pkg.")) {
+        return None;
+    }
+    let mut imps: Vec<&str> = parts[2].split(',').filter(|x| !x.is_empty()).collect();
+    imps.sort();
+    let mut decls: Vec<&str> = parts[3].split(',').filter(|x| !x.is_empty()).filter(|x| {
+        let id = x.split(':').next().unwrap_or("");
+        names.iter().any(|n| n == id)
+    }).collect();
+    decls.sort();
+    if name.rsplit('.').next().is_some_and(|l| l.starts_with("sp")) && imps.is_empty() && decls.is_empty() {
+        return None;
+    }
+    Some(format!("{name}|{}|{}|{}", parts[1], imps.join(","), decls.join(",")))
+}
+
+/// **The property's oracle**: the documented lookup rules, evaluated on the
+/// compiler's own scope graph.  First segment: declarations of the innermost
+/// enclosing scope, then that scope's imports, then outward; leading `super`s
+/// climb the module tree; every later segment (and the one after `super`s) is a
+/// direct member of the item before it.  Returns the declaration as
+/// (canonical scope name, identifier, kind) or the error class.
+fn oracle(sc: &[DScope], start: usize, path: &[String], kind: PKind, visible: &dyn Fn(&str, &str) -> bool) -> Result<(String, String), String> {
+    let decl_in = |s: usize, id: &str| -> Option<(usize, String, String, Option<usize>)> {
+        sc[s].decls.iter().find(|(i, k, _)| i == id && (k != "local" || visible(sc[s].canon.as_deref().unwrap_or(""), id))).map(|(i, k, o)| (s, i.clone(), k.clone(), *o))
+    };
+    // the module scope enclosing `s`, and the scope its declaration lives in
+    let owner_of = |m: usize| -> Option<usize> {
+        sc.iter().position(|x| x.decls.iter().any(|(_, k, o)| k == "mod" && *o == Some(m)))
+    };
+    let enclosing_module = |mut s: usize| -> Option<usize> {
+        loop {
+            if owner_of(s).is_some() {
+                return Some(s);
+            }
+            s = sc[s].parent?;
+        }
+    };
+    let mut i = 0;
+    let mut cur: Option<(usize, String, String, Option<usize>)> = None;
+    if path[0] == "super" {
+        let mut m = enclosing_module(start).ok_or("tooManySuper")?;
+        while i < path.len() && path[i] == "super" {
+            let owner = owner_of(m).ok_or("tooManySuper")?;
+            if owner == 0 {
+                return Err("tooManySuper".into());
+            }
+            // the parent module is the module scope `owner`; its declaration:
+            let decl = sc.iter().enumerate().find_map(|(si, x)| x.decls.iter().find(|(_, k, o)| k == "mod" && *o == Some(owner)).map(|(id, k, o)| (si, id.clone(), k.clone(), *o)));
+            cur = decl;
+            m = owner;
+            i += 1;
+        }
+    } else {
+        // first segment: innermost scope outward, declarations before imports
+        let mut s = Some(start);
+        while let Some(x) = s {
+            if let Some(d) = decl_in(x, &path[0]) {
+                cur = Some(d);
+                break;
+            }
+            if let Some((_, ts, tid)) = sc[x].imports.iter().find(|(a, _, _)| a == &path[0]) {
+                cur = Some(decl_in(*ts, tid).ok_or("dangling-import")?);
+                break;
+            }
+            s = sc[x].parent;
+        }
+        if cur.is_none() {
+            return Err("notDefined".into());
+        }
+        i = 1;
+    }
+    // later segments: direct members of the item before
+    let mut d = cur.ok_or("notDefined")?;
+    while i < path.len() {
+        let Some(owned) = d.3 else { break };
+        if path[i] == "super" {
+            return Err("tooManySuper".into());
+        }
+        d = decl_in(owned, &path[i]).ok_or("notDefined")?;
+        i += 1;
+    }
+    let rest = path.len() - i;
+    let k = d.2.as_str();
+    let ok = || Ok((sc[d.0].canon.clone().unwrap_or_else(|| format!("?{}", d.0)), d.1.clone()));
+    match (kind, k) {
+        (PKind::Ty, "ty") => ok(),
+        (PKind::Ty, _) => Err("expectedType".into()),
+        (PKind::Fn, "mod") | (PKind::Fn, "ty") | (PKind::Const, "mod") | (PKind::Const, "ty") => Err("expectedValue".into()),
+        (PKind::Fn, "fn") => if rest == 0 { ok() } else { Err("noField".into()) },
+        (PKind::Fn, _) => if rest == 0 { Err("expectedFunction".into()) } else { Err("noField".into()) },
+        (PKind::Const, "fn") => if rest == 0 { Err("expectedValue".into()) } else { Err("noField".into()) },
+        (PKind::Const, _) => if rest == 0 { ok() } else { Err("noField".into()) },
+    }
 }
 
 fn sources_json(p: &Program, keep: &dyn Fn(usize) -> bool, tags: &BTreeMap<usize, i64>) -> J {
     let mut v = vec![];
     for (i, m) in p.mods.iter().enumerate() {
-        v.push(json!({"module": i, "name": p.names[m.ident], "parent": m.parent, "source": render_module(m, &p.names, keep, tags)}));
+        v.push(json!({"module": i, "name": p.names[m.ident], "parent": m.parent, "source": render_module(p, i, keep, tags)}));
     }
     json!({"files": v, "runtime": p.rt.iter().map(|r| json!({"module": p.names[r.name], "fns": r.fns.iter().map(|(n, t)| json!([p.names[*n], t])).collect::<Vec<_>>()})).collect::<Vec<_>>()})
 }
@@ -1417,7 +1675,9 @@ struct CaseResult {
 fn check_variant(rep: &mut Report, drv: &mut Driver, p: &Program, label: &str, ident: &J, max_err_probes: usize, disk: Option<u64>) -> CaseResult {
     let all = |_: usize| true;
     let none = |_: usize| false;
-    let infos = probe_infos(p);
+    let sites = probe_infos(p);
+    let infos = &sites.probes;
+    let decl_tags = &sites.decls;
     let model = ask_model(drv, p, &all);
     let rt = runtime_of(p);
     let empty = BTreeMap::new();
@@ -1547,10 +1807,11 @@ fn check_variant(rep: &mut Report, drv: &mut Driver, p: &Program, label: &str, i
         }
     }
     rep.hist("exports_per_tree", format!("{}", model.exports.len().min(12)));
-    // scope graph dump (localisation + tie of the graph itself)
-    if !run.scopes.is_empty() {
-        let want: std::collections::BTreeSet<String> = model.scopes.iter().filter_map(|s| canon_line(&canon_dump(s, &p.names), &p.names)).collect();
-        let got: std::collections::BTreeSet<String> = run.scopes.iter().filter_map(|s| canon_line(s, &p.names)).collect();
+    // scope graph dump (localisation + tie of the graph itself): exact, up to scope numbering
+    let dsc = parse_dump(&run.scopes);
+    if !dsc.is_empty() {
+        let want: std::collections::BTreeSet<String> = model.scopes.iter().filter_map(|s| canon_model_line(&canon_dump(s, &p.names), &p.names)).collect();
+        let got = canon_graph(&dsc, &p.names);
         rep.evaluations += 1;
         if want != got {
             let only_model: Vec<&String> = want.difference(&got).collect();
@@ -1590,7 +1851,37 @@ fn check_variant(rep: &mut Report, drv: &mut Driver, p: &Program, label: &str, i
         }
     }
 
-    // 3. the same tree discovered on disk
+    // 3. the property's oracle: the documented rules on the compiler's own scope graph
+    if !dsc.is_empty() {
+        let by_canon: BTreeMap<String, usize> = dsc.iter().enumerate().filter_map(|(i, s)| s.canon.clone().map(|c| (c, i))).collect();
+        for (id, got) in &res.seen {
+            let i = &infos[id];
+            let Some(&start) = by_canon.get(&i.scope) else { continue };
+            let path: Vec<String> = i.path.iter().map(|x| p.names[*x].clone()).collect();
+            let seq = i.seq;
+            let visible = |scope: &str, name: &str| sites.let_seq.get(&(scope.to_string(), name.to_string())).is_some_and(|q| *q < seq);
+            let want = match oracle(&dsc, start, &path, i.kind, &visible) {
+                Ok((scope, name)) => match decl_tags.get(&(scope.clone(), name.clone())) {
+                    Some(t) => Out::Ok(*t),
+                    None => Out::Err(format!("oracle: no tag for {scope}.{name}")),
+                },
+                Err(k) => Out::Err(k),
+            };
+            rep.evaluations += 1;
+            if &want != got {
+                rep.violation(
+                    &format!(
+                        "reference `{}` written in {} resolves to {} but the lookup rules (innermost declarations, imports, outward; later segments direct members) on the compiler's own scope graph designate {} ({label})",
+                        path.join("."), i.scope, got.show(), want.show()
+                    ),
+                    &format!("lookup-rule:{}-vs-{}", want.class(), got.class()),
+                    json!({"case": ident, "variant": label, "probe": id, "sources": sources_json(p, &keep_ok, &tags)}),
+                );
+            }
+        }
+    }
+
+    // 4. the same tree discovered on disk
     if let Some(noise) = disk {
         check_disk(rep, drv, p, &keep_ok, &tags, &run, &ask, &rt, noise, ident, label);
     }
@@ -1598,7 +1889,7 @@ fn check_variant(rep: &mut Report, drv: &mut Driver, p: &Program, label: &str, i
     res.sample = json!({
         "note": p.note, "variant": label, "modules": p.mods.len(), "references": p.nprobes,
         "resolved": ok_ids.len(), "rejected": err_ids.len(), "exports": model.exports.len(),
-        "pkg.roto": render_module(&p.mods[0], &p.names, &keep_ok, &tags),
+        "pkg.roto": render_module(p, 0, &keep_ok, &tags),
     });
     res
 }
@@ -1608,6 +1899,7 @@ fn check_variant(rep: &mut Report, drv: &mut Driver, p: &Program, label: &str, i
 /// their parent; declarations outside the case's identifier table (the
 /// harness's `sel`, `v`, `w`, `x`, `sp<id>`) are dropped; block-like scopes
 /// without imports and declarations are dropped (the `if sel == k` wrappers).
+#[allow(dead_code)]
 fn canon_line(s: &str, names: &[String]) -> Option<String> {
     let parts: Vec<&str> = s.split('|').collect();
     if parts.len() != 4 {
@@ -1886,7 +2178,7 @@ fn main() {
             let m = ask_model(&mut drv, &p, &all);
             let tags: BTreeMap<usize, i64> = m.probes.iter().filter_map(|(i, o)| if let Out::Ok(t) = o { Some((*i, *t)) } else { None }).collect();
             for (i, md) in p.mods.iter().enumerate() {
-                println!("// ---- module {i} `{}` parent {:?}\n{}", p.names[md.ident], md.parent, render_module(md, &p.names, &all, &tags));
+                println!("// ---- module {i} `{}` parent {:?}\n{}", p.names[md.ident], md.parent, render_module(&p, i, &all, &tags));
             }
             println!("// model: base {} probes {:?}", m.base.show(), m.probes.iter().map(|(i, o)| format!("{i}={}", o.show())).collect::<Vec<_>>());
             println!("// exports {:?}", m.exports);
